@@ -36,8 +36,7 @@ class NumericalSolver:
         else:             # create anonymous node
             p.part_units()
             value, units = p.value_raw, p.units_raw
-        with UnitEnvironment(self.env.units):                
-            unit = Quantity(float(value), units)
+        unit = Quantity(float(value), units)  # custom units are registered by solve()
         unit.symbol = expr
         return unit
         
